@@ -10,7 +10,7 @@
    path, the assembly as preprocessed for GOAMD64=v3, the no-POPCNT Go
    fallback and the portable Go bodies all return the same scalar
    definitions (C14_kernel_backends_agree below). *)
-From Strcase Require Import Base Utf8 Spec Kernels Impl Impl5 Impl6 Impl7 Instances X86 X86NonASCII X86IndexByte X86Count X86NonASCIIv3 X86IndexBytev3 X86Countv3.
+From Strcase Require Import Base Utf8 Spec Kernels Impl Impl5 Impl6 Impl7 Instances X86 X86NonASCII X86IndexByte X86Count X86Countv3.
 From StrcaseGen Require Import AsmProg.
 
 Theorem C14_count_variants_equal : forall s c, wf s -> 0 <= c < 256 ->
@@ -27,7 +27,8 @@ Proof. exact index_non_ascii_generic_eq. Qed.
 
 (* ---- every kernel back end computes the same function ----
    For each of the three kernels and each entry point: the run of the default assembly with AVX2, the run without
-   AVX2 (SSE path), the run of the GOAMD64=v3 preprocessing, and the Go bodies used without POPCNT / without
+   AVX2 (SSE path), the run of what GOAMD64=v3 assembles (count_go122_amd64.s loses its CPU tests; the other two
+   files do not include asm_amd64.h and are assembled unchanged, AsmProg.v says so), and the Go bodies used without POPCNT / without
    assembly, all yield one value — at any address, alignment and surrounding memory (the assembly runs may even
    be placed differently: A1/junk1, A2/junk2, A3/junk3). *)
 Definition placed (A : Z) (s : bytes) : Prop := 4096 <= A /\ A + X86.len s < two63.
@@ -59,11 +60,11 @@ Proof.
   split; [|split].
   - destruct (index_non_ascii_str A1 s junk1 slot true popcnt c HA1 HL1 Hw r1) as [f1 H1].
     destruct (index_non_ascii_str A2 s junk2 slot false popcnt c HA2 HL2 Hw r2) as [f2 H2].
-    destruct (index_non_ascii_str_v3 A3 s junk3 slot true popcnt c HA3 HL3 Hw r3) as [f3 H3].
+    destruct (index_non_ascii_str A3 s junk3 slot true popcnt c HA3 HL3 Hw r3) as [f3 H3].
     exists f1, f2, f3, (index_non_ascii s). repeat split; try assumption. apply index_non_ascii_generic_eq. exact Hw.
   - destruct (index_byte_asm_str A1 s junk1 slot true popcnt c HA1 HL1 Hw r1) as [f1 H1].
     destruct (index_byte_asm_str A2 s junk2 slot false popcnt c HA2 HL2 Hw r2) as [f2 H2].
-    destruct (index_byte_asm_str_v3 A3 s junk3 slot true popcnt c HA3 HL3 Hw r3) as [f3 H3].
+    destruct (index_byte_asm_str A3 s junk3 slot true popcnt c HA3 HL3 Hw r3) as [f3 H3].
     exists f1, f2, f3, (k_index_byte s c8). repeat split; try assumption. apply index_byte_generic_eq; assumption.
   - destruct (count_asm_str A1 s junk1 slot true true c HA1 HL1 Hw r1 eq_refl) as [f1 H1].
     destruct (count_asm_str A2 s junk2 slot false true c HA2 HL2 Hw r2 eq_refl) as [f2 H2].
